@@ -205,7 +205,10 @@ def bip373_nonces(ex, n):
     keys = [bytes([2, ids[i]]) + b"\x00" * 31 for i in range(n)]
     nonce_of = {bytes([2, v]) + b"\x00" * 31: bytes([0xA0 + v]) * 66 for v in range(3)}
     ex.stub(_pm._session_parts, lambda psbt, vin_i, agg, leaf_hash: _Parts(keys))
-    ex.stub(_pm._session_pub_nonces, lambda psbt_in, tweaked, leaf_hash: dict(nonce_of))
+    present = {}
+    for k in keys:                       # one stored nonce per distinct participant (a map has one entry per key)
+        present[bytes(k)] = nonce_of[bytes(k)]
+    ex.stub(_pm._session_pub_nonces, lambda psbt_in, tweaked, leaf_hash: dict(present))
     seen = {}
 
     def fake_agg(nonces):
